@@ -39,6 +39,8 @@ var Pool = []Pkg{
 	{"f.dev/v2", "f"},
 	{"github.com/Sirupsen/logrus", "logrus"}, // equal up to case: ties under any case-folding order
 	{"github.com/sirupsen/logrus", "logrus"},
+	{"github.com/kardianos/govendor/context", "context"}, // an element that merely ENDS in "vendor": not a vendor path
+	{"h.io/myvendor", "myvendor"},
 	{"root/vendor/g.com/vend", "vend"}, // must stay last (edit scripts never pick it)
 }
 
@@ -278,7 +280,7 @@ func Source(t *tape.Tape, opt Options) Spec {
 				p = Pool[t.Draw(12)]
 			}
 		}
-		if opt.NoVendor && strings.Contains(p.Path, "vendor/") {
+		if opt.NoVendor && (strings.Contains(p.Path, "/vendor/") || strings.HasPrefix(p.Path, "vendor/")) {
 			p = Pool[t.Draw(12)]
 		}
 		if used[p.Path] {
